@@ -66,6 +66,13 @@ fn main() {
                 i += 1;
                 worker = Some(PathBuf::from(args.get(i).unwrap_or_else(|| usage())));
             },
+            "--gen-corpus" => {
+                // xv <anything> --gen-corpus <target> <dir>: small valid seed inputs for a fuzz target
+                let target = args.get(i + 1).cloned().unwrap_or_else(|| usage());
+                let dir = PathBuf::from(args.get(i + 2).cloned().unwrap_or_else(|| usage()));
+                gen_corpus(&target, &dir);
+                return;
+            },
             "--crash-child" => {
                 i += 1;
                 engine::install_quiet_panic_hook();
@@ -141,4 +148,49 @@ fn main() {
     (def.run)(&ctx);
     let code = ctx.finish(def.rule, def.assumptions);
     std::process::exit(code);
+}
+
+fn gen_corpus(target: &str, dir: &std::path::Path) {
+    use xv::engine::{draw, Sm64};
+    std::fs::create_dir_all(dir).expect("corpus dir");
+    match target {
+        "xorb_validate" => {
+            for k in 0..24u64 {
+                let spec = draw(&xv::gen::xorb::xorb_spec_strategy(5, false), 1000 + k);
+                if let Ok(b) = xv::gen::xorb::build(&spec) {
+                    if b.bytes.len() > 200_000 {
+                        continue;
+                    }
+                    // own hash + selector 0, then the object; and a variant without footer
+                    let mut v = b.hash.to_vec();
+                    v.push(0);
+                    v.extend_from_slice(&b.bytes);
+                    std::fs::write(dir.join(format!("valid-{k}")), &v).unwrap();
+                    let parsed = xv::refs::xorb::parse(&b.bytes).unwrap();
+                    let mut w = b.hash.to_vec();
+                    w.push(1);
+                    w.extend_from_slice(&b.bytes[..parsed.content_end]);
+                    std::fs::write(dir.join(format!("nofooter-{k}")), &w).unwrap();
+                }
+            }
+        },
+        "xorb_roundtrip" | "chunker_diff" | "hash_text" | "sorted_search" => {
+            for k in 0..16u64 {
+                let n = 16 + (k * 997 % 6000) as usize;
+                let mut v = vec![(k % 4) as u8, (k % 9) as u8, 3];
+                v.extend(Sm64(k).bytes(n));
+                if k % 3 == 0 {
+                    // low-entropy variant
+                    for b in v.iter_mut().skip(8) {
+                        *b &= 0x11;
+                    }
+                }
+                std::fs::write(dir.join(format!("seed-{k}")), &v).unwrap();
+            }
+            if target == "hash_text" {
+                std::fs::write(dir.join("hex"), "00112233445566778899aabbccddeeff00112233445566778899AABBCCDDEEFF").unwrap();
+            }
+        },
+        _ => {},
+    }
 }
